@@ -182,9 +182,67 @@ def run(rep, tier):
     rep.rule("R9", "written arrays are the ones the components were computed from: no later store to an operand, no memoised geometry field")
     locsets.check_fresh(prog, rep, "R9", CONTRA + COV + ["J", "hy"], ["orthogonal", "non-orthogonal", "orthogonal/capBp"])
     memo_rule(prog, rep)
+    r10(prog, rep, f)
     rep.undecided("covariant components vs scalar products of actual displacements (numerical)")
     rep.undecided("accuracy of beta computed from radial neighbours")
     return __doc__
+
+
+def beta_expressions(prog, ctx, loc="centre"):
+    """(cosBeta, sinBeta) of the beta method for one location block as expressions in
+    dxR, dxZ (radial index displacement), f_R, f_Z (direction of grad psi) and self.bpsign"""
+    fb = prog.unique_func_assigning(["cosBeta", "sinBeta", "tanBeta"], MESH)
+    cur = []
+    for s in fb.node.body:
+        cur.append(s)
+        if isinstance(s, ast.Assign):
+            t = s.targets[0]
+            if isinstance(t, ast.Attribute) and is_self_attr(t.value, "sinBeta"):
+                if t.attr == loc:
+                    ex = BetaEx(ctx, fb.module, loc)
+                    ex.on_attr = lambda d, node, env: ctx.sym(d)
+                    env = {}
+                    for st in cur:
+                        ex.stmt(st, env)
+                    return env.get("self.cosBeta"), env.get("self.sinBeta"), fb
+                cur = []
+    raise AnalysisError("beta block for %s not found" % loc)
+
+
+def r10(prog, rep, f):
+    """the off-diagonal covariant component g_12 is the scalar product of the actual basis
+    vectors: e_x = (radial displacement)/(change of psi along it), e_y = hy * (unit vector
+    along increasing y), for both signs of Bp.  Everything else in the non-orthogonal arm
+    follows from it through the inverse relation (R1)."""
+    rep.rule("R10", "non-orthogonal arm: g_12 == e_x . e_y with e_x, e_y built from the displacement the beta method measures (per sign of Bp)")
+    for bsv in (1, -1):
+        ctx = Context()
+        c, sn, fb = beta_expressions(prog, ctx, "centre")
+        if not (isinstance(c, Rat) and isinstance(sn, Rat)):
+            rep.ob("R10", "beta expressions extractable", False, MESH, "", key="disp/extract")
+            return
+        ex = MetricEx(ctx, f.module, {"orthogonal": False})
+        env = {"self.cosBeta": c, "self.sinBeta": sn, "self.tanBeta": sn / c, "self.I": ctx.const(0)}
+        for s in f.node.body:
+            try:
+                ex.stmt(s, env)
+            except (AlgError, PathRaises):
+                break
+            if "self.g_12" in env and isinstance(s, ast.If):
+                break
+        g_12 = env.get("self.g_12")
+        if not isinstance(g_12, Rat):
+            rep.ob("R10", "g_12 extractable with beta substituted", False, f.site(), str(g_12), key="disp/g_12/extract")
+            return
+        Bp, R, hy, bs = ctx.sym("self.Bpxy"), ctx.sym("self.Rxy"), ctx.sym("self.hy"), ctx.sym("self.bpsign")
+        ctx.add_relation(ctx.call("abs", Bp).as_atom(), 1, bsv * Bp, "sign(Bpxy)=bpsign (C03.R4), bpsign=%+d on this arm" % bsv)
+        dxR, dxZ, fR, fZ = ctx.sym("dxR"), ctx.sym("dxZ"), ctx.sym("f_R"), ctx.sym("f_Z")
+        # e_x.e_y = hy * (dr . yhat) / (dr . grad psi),  yhat = bpsign * (f_Z, -f_R)/|f|,  grad psi = R|Bp| (f_R, f_Z)/|f|
+        true = hy * bsv * (dxR * fZ - dxZ * fR) / ((dxR * fR + dxZ * fZ) * R * (bsv * Bp))
+        # I is zero in this evaluation, so the whole of g_12 is the poloidal scalar product
+        d = (g_12.subs({"self.bpsign": bsv}) - true).subs({"self.I": 0})
+        rep.ob("R10", "bpsign=%+d: g_12 == e_x . e_y (e_x from the radial displacement the beta method uses, e_y = hy*yhat)" % bsv, d.is_zero(), f.site(),
+               "g_12 - e_x.e_y = " + d.residual()[:200], key="disp/g_12/bpsign=%+d" % bsv)
 
 
 def memo_rule(prog, rep):
